@@ -112,7 +112,7 @@ def tree_event(abidiff, a, b, opts, env, case, suppr=None, base=None, extra=None
           "sumChangedVars": g("vars", "changed"), "sumFilteredVars": g("vars", "changed_f"),
           "netRemoved": g("fns", "removed") + g("vars", "removed") + g("fsyms", "removed") + g("vsyms", "removed"),
           "netAdded": g("fns", "added") + g("vars", "added") + g("fsyms", "added") + g("vsyms", "added"),
-          "sonameOrArch": rep["soname"] or rep["arch"], "exit": r.exit, "ret": campaign.retof(t), "suppr": bool(suppr),
+          "sonameOrArch": rep["soname"] or rep["arch"], "exit": r.exit, "ret": campaign.retof(t), "suppr": bool(suppr), "mutKind": "",
           "leaf": "--leaf-changes-only" in opts, "leafTypes": rep["leaf"].get("types", 0), "leafTypesF": rep["leaf"].get("types_f", 0),
           "leafArtifacts": rep["leaf"].get("artifacts", 0), "leafArtifactsF": rep["leaf"].get("artifacts_f", 0)}
     if extra:
